@@ -311,7 +311,7 @@ impl Prop for C02 {
         if !c.stale_extra.is_empty() { out.push(PlanCase { stale_extra: vec![], stale_missing: 0, ..c.clone() }); }
         out
     }
-    fn rule(&self) -> String { "A case is one (dataset, query) pair - default + named graphs (incl. empty catalogued ones, triples repeated across graphs), query from a grammar of the supported fragment (BGPs of 1-5 patterns in chain/star/cycle/Cartesian shapes, GRAPH <g>/?g, UNION, group-scoped FILTER, BIND(CONCAT), VALUES with UNDEF, sub-SELECT with DISTINCT/ORDER BY/LIMIT, FROM/FROM NAMED, GROUP BY + COUNT/MIN/MAX, DISTINCT/ORDER BY/LIMIT under a total order) - executed as a baseline and 8-24 variants drawn from: permutation of the patterns inside every BGP, fresh/stale/empty/adversarial statistics in cached_stats, every join node reassigned (all-bind, all-hash, all-nested-loop, mixed), table/index scans swapped, star joins expanded, simulated pool size/splits/job order, hash seed. Oracle: the multiset of decoded rows equals the baseline's. Non-trivial = baseline answer non-empty; distinct = hash of (dataset size, query text). Permuted renderings also shuffle adjacent pattern blocks (BGP / GRAPH); look-alike GRAPH blocks under two graph variables, graph IRIs as subjects / objects, the graph variable inside its own block or bound by the enclosing group; half of the rewritten variants use the plan the same optimizer object returns when asked a second time (warm memo); pools up to 300 workers.".into() }
+    fn rule(&self) -> String { "A case is one (dataset, query) pair - default + named graphs (incl. empty catalogued ones, triples repeated across graphs), query from a grammar of the supported fragment (BGPs of 1-5 patterns in chain/star/cycle/Cartesian shapes, GRAPH <g>/?g, UNION, group-scoped FILTER, BIND(CONCAT), VALUES with UNDEF, sub-SELECT with DISTINCT/ORDER BY/LIMIT, FROM/FROM NAMED, GROUP BY + COUNT/MIN/MAX, DISTINCT/ORDER BY/LIMIT under a total order) - executed as a baseline and 8-24 variants drawn from: permutation of the patterns inside every BGP, fresh/stale/empty/adversarial statistics in cached_stats, every join node reassigned (all-bind, all-hash, all-nested-loop, mixed), table/index scans swapped, star joins expanded, simulated pool size/splits/job order, hash seed. Oracle: the multiset of decoded rows equals the baseline's. Non-trivial = baseline answer non-empty; distinct = hash of (dataset size, query text). Permuted renderings also shuffle adjacent pattern blocks (BGP / GRAPH); look-alike GRAPH blocks under two graph variables, graph IRIs as subjects / objects, the graph variable inside its own block or bound by the enclosing group; half of the rewritten variants use the plan the same optimizer object returns when asked a second time (warm memo); pools up to 300 workers. A third of the cases insert and delete a few quads through the store API before the first query.".into() }
     fn assumptions(&self) -> Vec<String> { vec!["metamorphic: whether the common answer is the right one is C01, which this family does not decide".into(), "FILTER/BIND mention only variables of their own group (the property's quantifier)".into(), "plan rewrites are applied to plain group patterns through the public pieces the executor uses (parse_combined_query, build_logical_plan_from_group, Streamertail::find_best_plan, ExecutionEngine::execute_with_ids_and_dataset) and compared at binding level".into()] }
     fn real_vs_stub(&self) -> serde_json::Value { serde_json::json!({"real": ["parser", "build_logical_plan_from_group", "Streamertail optimizer + cost estimator", "ExecutionEngine (bind / hash / nested-loop joins, star join, scans, filter, bind, values, subquery, union, graph)", "finalize_select / aggregates", "DatabaseStats::gather"], "simulated": ["rayon (sim-rayon: pool size, job cuts, order)", "cached statistics (fresh / stale / empty / adversarial installed through the public field)", "physical plan choice (rewritten from outside)", "hash keys per variant"], "not_run": []}) }
 }
